@@ -769,3 +769,39 @@ Definition wf_hentry (h : hentry) : Prop :=
   he_last h < TWO64 /\ rr_mark (he_res h) < 0x100000000 /\ rr_must (he_res h) < 256 /\
   rr_mac (he_res h) < 0x1000000000000 /\ rr_out (he_res h) < 256 /\ rr_pname (he_res h) < 2 ^ 128 /\
   rr_pid (he_res h) < 0x100000000 /\ rr_dscp (he_res h) < 256.
+
+(* ---------------------------------------------------------------------------------------------- *)
+(* 6. dae's recovery of the record as a step on the maps                                           *)
+(* ---------------------------------------------------------------------------------------------- *)
+(* RetrieveRoutingResult with its effect on the maps: retrieveRoutingHandoffResult deletes an entry it finds
+   expired, and nothing else.  (dae may handle a redirected packet after further packets of the same tuple
+   were redirected: every such recovery has to find the record.) *)
+Definition frec_of_rr (r : rresult) : frec :=
+  mk_frec (mk_dec (rr_out r) (rr_mark r) (rr_must r)) (rr_dscp r) (rr_mac r) (rr_pname r) (rr_pid r).
+Definition go_recover (st : kstate) (k : fkey) (now : N) : option frec * kstate :=
+  match (match tab_get (ks_conn st) k with
+         | Some s => if cs_has s =? 0 then None
+                     else Some (mk_frec (mk_dec (cs_out s) (cs_mark s) (cs_must s)) (cs_dscp s) (cs_mac s) (cs_pname s) (cs_pid s))
+         | None => None
+         end) with
+  | Some r => (Some r, st)
+  | None =>
+      match tab_get (ks_hand st) k with
+      | Some h => if routing_handoff_expired now (he_last h)
+                  then (None, mk_ks (ks_conn st) (tab_del (ks_hand st) k))
+                  else (Some (frec_of_rr (he_res h)), st)
+      | None => (None, st)
+      end
+  end.
+(* a variant that consumes the handoff record when it is read (NOT what the code does; see C03_Props) *)
+Definition go_recover_consuming (st : kstate) (k : fkey) (now : N) : option frec * kstate :=
+  match fst (go_recover st k now), tab_get (ks_conn st) k with
+  | Some r, None => (Some r, mk_ks (ks_conn st) (tab_del (ks_hand st) k))
+  | _, _ => go_recover st k now
+  end.
+Fixpoint recover_many (rec : kstate -> fkey -> N -> option frec * kstate) (st : kstate) (ks : list fkey) (now : N)
+  : list (option frec) * kstate :=
+  match ks with
+  | [] => ([], st)
+  | k :: r => let '(x, st1) := rec st k now in let '(xs, st2) := recover_many rec st1 r now in (x :: xs, st2)
+  end.
